@@ -665,7 +665,9 @@ class Envelope(core_events.Consecution, typing.Generic[T]):
         assert last_point
 
         cut_out_envelope = super().cut_out(start, end)
-        cut_out_envelope.append(last_point.set("duration", 0))
+        # 'last_point' may still be part of the envelope (end >= duration):
+        # append a copy, never the same object twice.
+        cut_out_envelope.append(last_point.copy().set("duration", 0))
 
         return cut_out_envelope
 
